@@ -70,7 +70,7 @@ def run_shard(spec, acc):
     dbx = refdb.db()
     rng = gen.rng_for(spec["seed"], ID, spec["name"])
     quick = spec["tier"] == "quick"
-    n_cfg = 150 if quick else 400
+    n_cfg = 150 if quick else 1500
     n_events = 60 if quick else 200
     sources = [11, 22, 33]
     for c in range(n_cfg):
